@@ -118,6 +118,10 @@ func processCalcJcc(env *Pass1, operands []ast.Exp, instName string) {
 			if _, exists := env.SymTable[label]; !exists {
 				log.Printf("debug: [processCalcJcc] Label '%s' not found in SymTable yet. Adding placeholder.", label)
 				env.SymTable[label] = 0 // プレースホルダーアドレス
+				if env.PendingLabels == nil {
+					env.PendingLabels = make(map[string]bool)
+				}
+				env.PendingLabels[label] = true
 			}
 			estimatedSize = estimateJumpSize(instName, env.BitMode)
 			ocode = fmt.Sprintf("%s {{.%s}}", instName, label) // ラベルプレースホルダー
